@@ -501,6 +501,11 @@ fn run_history(h: &[Op], drv: Option<&mut Driver>, progress: bool) -> Outcome {
     }
     // ---- tear everything down (in the order the history left it): nothing may stay alive
     if out.violations.is_empty() {
+        if progress {
+            println!("STEP {} (dropping whatever the history left alive)", h.len());
+            use std::io::Write;
+            let _ = std::io::stdout().flush();
+        }
         drop(w);
         for (tag, name, _, _) in spec.expected_live() {
             let n = live_of(tag);
@@ -697,23 +702,43 @@ fn main() {
             let depth = if thorough { 8 } else { 7 };
             let depth_s = depth.to_string();
             let n_exh = gen_exhaustive(depth).len() as u64;
-            run_batches(&["exh", &depth_s], n_exh, 400, t, &mut rep, |rep: &mut Report, idx: u64, how: &Ended| {
-                let h = &gen_exhaustive(depth)[idx as usize];
-                rep.violation(
-                    "the process died (use-after-free / double free) while running this history",
-                    &format!("crash {}", crash_key(h)),
-                    json!({"history": hist_text(h), "ended": format!("{how:?}"), "origin": {"exhaustive-depth": depth, "index": idx}}),
-                );
-            });
+            // crash budget: a tree on which (almost) every history dies must not
+            // cost one process start per history
+            let crashes = std::cell::Cell::new(0u32);
+            let mut off = 0u64;
+            while off < n_exh && crashes.get() < 6 {
+                let chunk = 400.min(n_exh - off);
+                let off_s = off.to_string();
+                run_batches(&["exh", &depth_s, &off_s], chunk, 400, t, &mut rep, |rep: &mut Report, idx: u64, how: &Ended| {
+                    crashes.set(crashes.get() + 1);
+                    let h = &gen_exhaustive(depth)[(off + idx) as usize];
+                    rep.violation(
+                        "the process died (use-after-free / double free) while running this history (and then dropping what it left alive)",
+                        &format!("crash {}", crash_key(h)),
+                        json!({"history": hist_text(h), "ended": format!("{how:?}"), "origin": {"exhaustive-depth": depth, "index": off + idx}}),
+                    );
+                });
+                off += chunk;
+            }
             let n_rand = if thorough { 20000 } else { 2000 };
-            run_batches(&["random", &seed_s], n_rand, 200, t, &mut rep, |rep: &mut Report, idx: u64, how: &Ended| {
-                let h = gen_random(&mut Prng::for_case(seed, idx));
-                rep.violation(
-                    "the process died (use-after-free / double free) while running this history",
-                    &format!("crash {}", crash_key(&h)),
-                    json!({"history": hist_text(&h), "ended": format!("{how:?}"), "origin": {"seed": seed, "index": idx}}),
-                );
-            });
+            let mut off = 0u64;
+            while off < n_rand && crashes.get() < 12 {
+                let chunk = 200.min(n_rand - off);
+                let off_s = off.to_string();
+                run_batches(&["random", &seed_s, &off_s], chunk, 200, t, &mut rep, |rep: &mut Report, idx: u64, how: &Ended| {
+                    crashes.set(crashes.get() + 1);
+                    let h = gen_random(&mut Prng::for_case(seed, off + idx));
+                    rep.violation(
+                        "the process died (use-after-free / double free) while running this history (and then dropping what it left alive)",
+                        &format!("crash {}", crash_key(&h)),
+                        json!({"history": hist_text(&h), "ended": format!("{how:?}"), "origin": {"seed": seed, "index": off + idx}}),
+                    );
+                });
+                off += chunk;
+            }
+            if crashes.get() >= 6 {
+                rep.notes.push(format!("run cut short after {} crashed histories", crashes.get()));
+            }
             rep.notes.push(format!("exhaustive: all {n_exh} histories (runtime with constant+closure) ++ suffix of ≤ {depth} ops ending in a drop; random: {n_rand} histories"));
             if thorough {
                 valgrind_subset(&mut rep, seed);
@@ -722,23 +747,30 @@ fn main() {
         Some("worker") => match args[2].as_str() {
             "exh" => {
                 let depth: usize = args[3].parse().unwrap();
-                let from: usize = args[4].parse().unwrap();
-                let n: usize = args[5].parse().unwrap();
+                let off: usize = args[4].parse().unwrap();
+                let from: usize = args[5].parse().unwrap();
+                let n: usize = args[6].parse().unwrap();
                 let all = gen_exhaustive(depth);
                 let mut drv = Driver::spawn().expect("lean driver");
-                for idx in from..(from + n).min(all.len()) {
-                    println!("START {idx}");
+                for rel in from..from + n {
+                    let idx = off + rel;
+                    if idx >= all.len() {
+                        break;
+                    }
+                    println!("START {rel}");
                     let o = run_history(&all[idx], Some(&mut drv), false);
                     record(&mut rep, &all[idx], &o, json!({"exhaustive-depth": depth, "index": idx}), idx as u64);
                 }
             }
             "random" => {
                 let seed: u64 = args[3].parse().unwrap();
-                let from: u64 = args[4].parse().unwrap();
-                let n: u64 = args[5].parse().unwrap();
+                let off: u64 = args[4].parse().unwrap();
+                let from: u64 = args[5].parse().unwrap();
+                let n: u64 = args[6].parse().unwrap();
                 let mut drv = Driver::spawn().expect("lean driver");
-                for idx in from..from + n {
-                    println!("START {idx}");
+                for rel in from..from + n {
+                    let idx = off + rel;
+                    println!("START {rel}");
                     let h = gen_random(&mut Prng::for_case(seed, idx));
                     let o = run_history(&h, Some(&mut drv), false);
                     record(&mut rep, &h, &o, json!({"seed": seed, "index": idx}), idx);
